@@ -106,6 +106,11 @@ def h_registry(sx):
         use_step_matcher(kind)
         register_type(Color=parse_color, Number=parse_number)
     reg = StepRegistry()
+    if sx.params.get("cleared"):
+        # a registry that was used before and emptied with clear() (a program embedding behave re-using it between runs)
+        reg.add_step_definition("given", u"something registered earlier", funcs[0])
+        reg.add_step_definition("step", u"something generic registered earlier", funcs[1])
+        reg.clear()
     model = {t: [] for t in ("given", "when", "then", "step")}     # reference registry: lists of (def index, func index)
     hist = []
     for i in range(n):
@@ -333,6 +338,11 @@ def jobs(tier, seed):
                       reach=["C11.bound-to-first-matching-definition(type-before-generic,earlier-first)",
                              "C11.ambiguity-raised-exactly-when-existing-definition-matches", "C11.identical-re-registration-ignored"],
                       min_paths=50, cost=5000, validate=2 if tier == "quick" else 10, closure=False, max_paths=600000, budget_s=1500))
+    for first in firsts[::max(1, len(firsts) // 8)]:
+        js.append(Job("registry.cleared.n2.first%03d" % first, "props.c11:h_registry", {"n": 2, "first": first, "cleared": True},
+                      reach=["C11.bound-to-first-matching-definition(type-before-generic,earlier-first)",
+                             "C11.ambiguity-raised-exactly-when-existing-definition-matches"],
+                      min_paths=50, cost=5000, validate=2, closure=False, max_paths=600000))
     js.append(Job("type-history", "props.c11:h_type_history", {}, reach=["C11.converted-by-the-type-declared-at-definition"], min_paths=20, cost=5,
                   validate=40, closure=False))
     js.append(Job("module-reset", "props.c11:h_module_reset", {}, reach=["C11.matcher-switch-does-not-leak-into-next-step-module"], min_paths=3, cost=5,
